@@ -222,7 +222,7 @@ def alias_cases(env):
     for d in DIRECTED:
         gen, entries = make_entries(rng, 1, directed=d)
         yield case_from(gen, entries, 'alias', [0, 0], probes=False), 'directed:' + d['name']
-    for _ in range(env.n(220, 2600)):
+    for _ in range(env.n(220, 9000)):
         gen, entries = make_entries(rng, 1)
         yield case_from(gen, entries, 'alias', [0, 0] if rng.random() < 0.5 else [0], probes=False), 'random'
 
@@ -234,7 +234,7 @@ def history_cases(env):
         for e in entries:
             e.pop('prog', None)
         yield case_from(gen, entries, 'history', [0, 0, 0], probes=True), 'directed:' + d['name']
-    for _ in range(env.n(70, 900)):
+    for _ in range(env.n(70, 2500)):
         ne = rng.randint(1, 3)
         gen, entries = make_entries(rng, ne)
         for e in entries:
@@ -251,7 +251,7 @@ def thread_cases(env):
     for d in (DIRECTED[0], DIRECTED[1], DIRECTED[5], DIRECTED[8]):
         gen, entries = make_entries(rng, 1, directed=d)
         sets.append((gen, entries, [0, 0], 'directed:' + d['name']))
-    for _ in range(env.n(6, 60)):
+    for _ in range(env.n(6, 150)):
         ne = rng.randint(1, 3)
         gen, entries = make_entries(rng, ne)
         nt = rng.randint(2, 3)
@@ -522,6 +522,9 @@ def run(env, res):
                 'set, cold and warm caches, each vs its solo run. non-trivial = distinct (pipelines, config, entries, '
                 'order, schedule)')
     cases = list(alias_cases(env)) + list(history_cases(env)) + list(thread_cases(env))
+    only = os.environ.get('C12_STREAMS')          # debugging / self-test: run a subset of the streams
+    if only:
+        cases = [c for c in cases if c[0]['kind'] in only.split(',')]
     res.extra['stream_sizes'] = {k: sum(1 for c, _ in cases if c['kind'] == k) for k in CHECKERS}
     if env.quick:
         _run_cases(env, res, cases)
